@@ -13,7 +13,7 @@ for d in sorted(glob.glob(V+'/seeded/*/')):
         if l.startswith('check ') and 'VIOLATION' in l:
             k=l.find('kind=')
             witness=l[k:k+110].replace('|','/') if k>=0 else ''
-    rows.append('| %s | %s | %s | %s |'%(name, summ, ', '.join(m.get('caught_by',[])) or 'MISSED', witness))
+    rows.append('| %s | %s | %s | %s |'%(name, summ, (', '.join(m.get('caught_by',[])) or ('n/a (neutralised by the D8 repair)' if m.get('neutralised') else 'MISSED')), witness))
 table='| seeded | change | caught by | witness |\n|---|---|---|---|\n'+'\n'.join(rows)+'\n'
 p=V+'/DESIGN.md'
 s=open(p).read()
